@@ -221,4 +221,45 @@ def validate(tier, seed):
     if bad:
         entry['violation'] = [False, 'concrete round trip failed', {'first': str(bad[0])[:200]}]
         entry['func'] = 'concrete'
-    return [entry]
+    return [entry, shipped_roundtrip()]
+
+
+def shipped_roundtrip():
+    """every group of every shipped library, written non-dimensionally and in kJ/mol, must read back (real code, concrete)"""
+    import warnings
+    warnings.simplefilter('ignore')
+    from pgradd.GroupAdd.Library import GroupLibrary
+    libs = ['BensonGA', 'GRWAqueous2018', 'GRWSurface2018', 'GuSolventGA2017Aq', 'GuSolventGA2017Vac', 'PPY', 'PtSurface2023',
+            'SalciccioliGA2012', 'XieGA2022']
+    bad, n = [], 0
+    for name in libs:
+        lib = GroupLibrary.Load(name)
+        for g in lib:
+            c = lib[g].get('thermochem')
+            if c is None:
+                continue
+            for units in (UNIT_SETS[0], UNIT_SETS[2]):
+                n += 1
+                try:
+                    back = yio.load({'thermochem': yio.parse(c.yaml_format(units))}, {'units': {}}, loader=_loader)['thermochem']
+                    ok = (back.ND_H_ref is None) == (c.ND_H_ref is None) and sorted(back.ND_Cp_data) == sorted(float(t) for t in c.ND_Cp_data)
+                    if ok and c.ND_H_ref is not None:
+                        ok = abs(back.ND_H_ref - c.ND_H_ref) <= 2e-5 * max(1e-9, abs(c.ND_H_ref))
+                    for t in c.ND_Cp_data:
+                        if ok:
+                            ok = abs(back.ND_Cp_data[float(t)] - c.ND_Cp_data[t]) <= 2e-5 * max(1e-9, abs(c.ND_Cp_data[t]))
+                except Exception as e:
+                    ok = False
+                    if len(bad) < 3:
+                        bad.append('%s %s: %s %s' % (name, g, type(e).__name__, str(e)[:80]))
+                if not ok and len(bad) < 3:
+                    bad.append('%s %s' % (name, g))
+                if not ok:
+                    bad.append(None)
+    nbad = len([b for b in bad if b is None]) or len(bad)
+    entry = dict(name='every group of every shipped library: yaml_format -> parse -> load (non-dimensional and kJ/mol)', ok=True, n=n,
+                 detail='%d of %d round trips failed: %r' % (nbad, n, [b for b in bad if b][:2]))
+    if bad:
+        entry['violation'] = [False, 'shipped group round trip failed', {'first': str([b for b in bad if b][:1])}]
+        entry['func'] = 'concrete-shipped'
+    return entry
